@@ -157,6 +157,25 @@ func execTagRoundTrip(c *fw.Ctx, cs tagCase) {
 			s, err := webdav.ConditionalMatch(w).ETag()
 			return w, s, err
 		}},
+		{"String->ConditionalMatch.MatchETag", func() (string, string, error) {
+			// the header side as the servers use it: the tag written into a
+			// conditional header must match itself and nothing else
+			w := internal.ETag(v).String()
+			if v == "" {
+				return w, v, nil // the empty tag stands for "no resource": outside
+			}
+			ok, err := webdav.ConditionalMatch(w).MatchETag(v)
+			if err != nil {
+				return w, "", err
+			}
+			if !ok {
+				return w, "<does not match itself>", nil
+			}
+			if other, err := webdav.ConditionalMatch(w).MatchETag(v + "'"); err == nil && other {
+				return w, "<also matches another tag>", nil
+			}
+			return w, v, nil
+		}},
 		{"xml getetag", func() (string, string, error) {
 			b, err := xml.Marshal(&internal.GetETag{ETag: internal.ETag(v)})
 			if err != nil {
